@@ -2266,7 +2266,12 @@ class BaseInterpreter(Generic[TContext, TEvent]):
                     data=self._resolve_output(final_state),
                     src=ancestor.id,
                 )
-                await self.send(done_event)
+                # 🔁 Deliver through `_deliver` so the event counts towards
+                #    the self-raised chain. Sending it directly bypassed the
+                #    `maxIterations` bound: an `onDone` that re-enters its own
+                #    completed state fed the run loop forever, without ever
+                #    yielding to other tasks.
+                await self._deliver(self, done_event, None, None)
                 fired = True
             ancestor = ancestor.parent
 
